@@ -321,15 +321,21 @@ def judgeLine (c : Ctx) (root : Tree) (rootId : Nat) (r : Res) (line : String) :
         let explained := navPort == some answer
         -- for the range searches: does the search path on the ordered tree pass a zero-width node?
         -- (point queries are mapped to bytes through the node boundaries they were built from)
+        -- condition of the known defect: the search path — of the unchanged algorithm on the raw
+        -- tree (hidden zero-width leaves included) or of the search on the ordered tree — visits a
+        -- zero-width node
         let rangePathHasEmpty :=
           match op, args with
           | "dbr", w :: s0 :: e0 :: _ | "ndbr", w :: s0 :: e0 :: _ =>
-            c.ft.descendantPathHasEmpty (if w == "r" then 0 else k) (natOf s0) (natOf e0)
-          | "dpr", w :: _ | "ndpr", w :: _ =>
-            -- the explorer builds point ranges from the node's own corners
-            c.ft.descendantPathHasEmpty (if w == "r" then 0 else k) (c.ft.sb k) (c.ft.sb k) ||
-            c.ft.descendantPathHasEmpty (if w == "r" then 0 else k) (c.ft.eb k) (c.ft.eb k) ||
-            c.ft.descendantPathHasEmpty (if w == "r" then 0 else k) (c.ft.sb k) (c.ft.eb k)
+            let r0 := if w == "r" then 0 else k
+            descendantBytePathHasEmpty c.lang (c.rootSize + 1) (refOf r0) (natOf s0) (natOf e0) ||
+              c.ft.descendantPathHasEmpty r0 (natOf s0) (natOf e0)
+          | "dpr", w :: sr :: sc :: er :: ec :: _ | "ndpr", w :: sr :: sc :: er :: ec :: _ =>
+            let r0 := if w == "r" then 0 else k
+            descendantPointPathHasEmpty c.lang (c.rootSize + 1) (refOf r0) (pt sr sc) (pt er ec) ||
+              c.ft.descendantPathHasEmpty r0 (c.ft.sb k) (c.ft.sb k) ||
+              c.ft.descendantPathHasEmpty r0 (c.ft.eb k) (c.ft.eb k) ||
+              c.ft.descendantPathHasEmpty r0 (c.ft.sb k) (c.ft.eb k)
           | _, _ => false
         let info := (c.ft.node k).info
         let label :=
